@@ -457,6 +457,8 @@ def check_train_group(ctx, exe, ds, F, bias, C, eps, kern, cfgs, disp=None):
                 va, vb = centre(va, outputs), centre(vb, outputs)
             for j in range(cnt):
                 tol = train_tolerance(ds, pts, j, kern, gap, epsf, bias)
+                if bias and (outputs == 1 or F == "OVA"):
+                    tol *= 2      # equality-constrained binary machines: the offset shift is only estimated (median), see above
                 for c in range(outputs):
                     dev = abs(va[j * outputs + c] - vb[j * outputs + c])
                     worst = max(worst, dev / tol)
